@@ -114,12 +114,27 @@ class Gen:
             self.count("positionals")
             if first_pos and r.random() < 0.3:
                 it.append("(required)")
+            multi = False
             if last_pos and r.random() < 0.3:
+                multi = True
                 if r.random() < 0.5:
                     it.append("(num 1 3)")
                 else:
                     it.append("(act append)")
                     it.append("(num 1 4)")
+            # round 4: a value name (bash writes it into the positional's placeholder; ONE name: two names give the
+            # placeholder `[A] [B]`, two words for bash where the bash semantics model has one opts token per positional),
+            # value_terminator of a multi-valued positional, last(true) on the final one
+            x = self.opt("ext", 0.25)
+            if r.random() < x * 0.6:
+                it.append("(vn %s)" % hexs("NAME%d" % k))
+                self.count("positionals-with-value-name")
+            if multi and r.random() < x:
+                it.append("(term %s)" % hexs(r.choice([";", "--", "end", "a b", "x:y", "(z)"])))
+                self.count("positionals-with-terminator")
+            if last_pos and "(required)" not in it and r.random() < x * 0.8:
+                it.append("(last)")
+                self.count("last-positionals")
             takes = True
         else:
             form = r.random()
@@ -170,6 +185,15 @@ class Gen:
                     self.count("options-with-optional-value")
                 elif r.random() < 0.1:
                     it.append("(num 1 2)")
+                # round 4: value names of an option: zsh writes the first one between the colons of the spec
+                x = self.opt("ext", 0.25)
+                if r.random() < x:
+                    if not any(i.startswith("(num") for i in it) and r.random() < 0.3:
+                        it.append("(vn %s %s)" % (hexs("VA%d" % k), hexs("VB%d" % k)))
+                        self.count("options-with-two-value-names")
+                    else:
+                        it.append("(vn %s)" % hexs(r.choice(["FILE%d", "VN%d", "v n%d", "N:%d"]) % k))
+                        self.count("options-with-value-name")
                 self.count("value-options")
             if r.random() < 0.15:
                 it.append("(global)")
@@ -244,9 +268,59 @@ class Gen:
             if "(global)" not in items[first_arg + k]:
                 items[first_arg + k] = items[first_arg + k][:-1] + " (cx %s))" % " ".join(chosen)
                 self.count("args-with-conflicts")
+        # round 4: argument groups (Arg::groups; _build_self makes the ArgGroups) and conflicts_with naming a GROUP: zsh
+        # expands the group to its members.  Not on a global argument (finding zsh-global-conflicts-group: the generator
+        # panics; profile "global_group" asks for exactly that), members in any order, possibly the conflicting arg itself
+        nargs = len(items) - first_arg
+        if nargs >= 2 and r.random() < self.opt("groups", 0.2):
+            gid = "g%d" % self.serial()
+            idx = list(range(nargs))
+            r.shuffle(idx)
+            members = idx[:r.choice([1, 2, 2, 3])]
+            for j in members:
+                items[first_arg + j] = items[first_arg + j][:-1] + " (grp %s))" % hexs(gid)
+            self.count("groups")
+            want_global = bool(self.opt("global_group"))
+            if want_global:
+                # the family of the finding: a GLOBAL argument conflicts with a group; the members are global too, so
+                # the group exists wherever the argument is propagated (clap's configuration check accepts the tree)
+                j = next(j for j in range(nargs) if j not in members[:1])
+                for m in set(members + [j]):
+                    if "(global)" not in items[first_arg + m]:
+                        items[first_arg + m] = items[first_arg + m][:-1] + " (global))"
+                cand = [j]
+            else:
+                cand = [j for j in range(nargs) if "(global)" not in items[first_arg + j] and j not in members[:1]]
+            if cand:
+                k = r.choice(cand)
+                extra = ""
+                if r.random() < 0.4 and not want_global:
+                    ids = [re.match(r"\(arg (x[0-9a-f]*)", x).group(1) for x in items[first_arg:]]
+                    others = [i for j, i in enumerate(ids) if j != k]
+                    extra = " " + r.choice(others)
+                    if r.random() < 0.5:
+                        extra = extra + " " + hexs(gid)        # the group twice: its members are written twice
+                items[first_arg + k] = items[first_arg + k][:-1] + " (cx %s%s))" % (hexs(gid), extra)
+                self.count("conflicts-with-group")
+                if want_global:
+                    self.count("global-arg-conflicts-with-group")
         npos = r.choice([0, 0, 0, 1, 1, 2])
         for i in range(npos):
             items.append(self.arg(positional=True, first_pos=(i == 0), last_pos=(i == npos - 1)))
+        # round 4: a multi-valued positional BEFORE the final one (clap's configuration check wants the final one last(true)
+        # then): with a terminator it is written '*term:' and the final one keeps its line; without, it is the catch-all
+        # and the final (last) positional is left to `_arguments -S` -- the final one carries no possible values then
+        if npos == 2 and r.random() < self.opt("ext", 0.25) * 0.8:
+            a1, a2 = items[-2], items[-1]
+            if "(num" not in a1 and "(vn" not in a1 and "(required)" not in a2:
+                term = " (term %s)" % hexs(r.choice([";", "--", "a b"])) if r.random() < 0.5 else ""
+                items[-2] = a1[:-1] + " (num 1 3)%s)" % term
+                if "(last)" not in a2:
+                    a2 = a2[:-1] + " (last))"
+                if not term:
+                    a2 = re.sub(r" \(h?pv x[0-9a-f]*\)", "", a2)
+                items[-1] = a2
+                self.count("multi-valued-positional-before-last" + ("-with-terminator" if term else ""))
         if level < max_level:
             nsub = r.choice([0, 1, 2, 2, 3]) if not root else r.choice([1, 2, 2, 3, 4])
             taken = set()
@@ -489,8 +563,34 @@ def mangle_unsafe(case, built_root=None):
 
 FAMILIES = {
     "bash-dunder-lookup", "alias-without-primary", "values-not-in-powershell-elvish", "nushell-subcommand-aliases",
-    "bash-cur-is-subcommand", "zsh-optional-value", "fish-positional-values",
+    "bash-cur-is-subcommand", "zsh-optional-value", "fish-positional-values", "zsh-global-conflicts-group",
 }
+
+
+def global_conflicts_group(case):
+    """the family zsh-global-conflicts-group, read off the case: some command of the spec declares a GLOBAL argument
+    whose conflicts_with names an argument GROUP of that command (an id some argument of the command lists in
+    (grp ..)) that is not also the id of an argument"""
+    try:
+        v = sx_parse(case)
+    except Exception:
+        return False
+
+    def go(c):
+        args = [it for it in c[2:] if isinstance(it, list) and it and it[0] == "arg"]
+        ids = {a[1] for a in args}
+        groups = set()
+        for a in args:
+            for x in a[2:]:
+                if isinstance(x, list) and x and x[0] == "grp":
+                    groups.update(x[1:])
+        for a in args:
+            glob = any(isinstance(x, list) and x and x[0] == "global" for x in a[2:])
+            cx = [y for x in a[2:] if isinstance(x, list) and x and x[0] == "cx" for y in x[1:]]
+            if glob and any(y in groups and y not in ids for y in cx):
+                return True
+        return any(go(it) for it in c[2:] if isinstance(it, list) and it and it[0] == "cmd")
+    return go(v[3])
 
 
 def token_family(shell, kind, tok, a):
@@ -613,6 +713,9 @@ def failures(case, impl):
     unsafe = shell == "bash" and mangle_unsafe(case)
     if impl.startswith("PANIC") or impl.startswith("ABORT"):
         fam = "bash-dunder-lookup" if unsafe and ("unwrap" in impl or "None" in impl) else None
+        if (shell == "zsh" and "The passed arg conflicts with an arg unknown to the cmd" in impl
+                and global_conflicts_group(case)):
+            fam = "zsh-global-conflicts-group"
         return [(fam, "the %s generator does not terminate normally on a valid command tree: %s" % (shell, impl[:200]))]
     out = []
     it = top_items(impl)
@@ -748,8 +851,8 @@ def classify_known(stream, case, impl, failure):
         return None
     if failure == "diff":
         # the model has no counterpart only where the implementation panics inside the known family
-        if impl.startswith("PANIC") and fs and fs[0][0] == "bash-dunder-lookup":
-            return "bash-dunder-lookup"
+        if impl.startswith("PANIC") and fs and fs[0][0] in ("bash-dunder-lookup", "zsh-global-conflicts-group"):
+            return fs[0][0]      # (the aot area has no zsh model; in the zsh area the model panics too: no difference)
         return None
     if fs and all(f is not None for f, m in fs):
         return fs[0][0]
@@ -1262,6 +1365,11 @@ def streams(tier, rng):
              ({"alias_without_primary": True}, 12 if quick else 150),    # finding alias-without-primary (class boundary)
              ({"optional_value": True}, 12 if quick else 150),           # finding zsh-optional-value (class boundary)
              ({"conflicts": 1.0}, 25 if quick else 400),                 # conflicts_with on every level with >= 2 options: the exclusion lists, in order
+             # round 4: value names, value terminators, last(true), a multi-valued positional before the last one, argument
+             # groups and conflicts_with naming a group (the exclusion list expands the group), all frequent
+             ({"ext": 0.7, "groups": 0.7, "conflicts": 0.5}, 45 if quick else 700),
+             # finding zsh-global-conflicts-group (class boundary of totality): a global argument conflicting with a group
+             ({"groups": 1.0, "global_group": True, "conflicts": 0.0}, 4 if quick else 40),
              ({"bin": "b in"}, 4 if quick else 40), ({"bin": "é-x"}, 4 if quick else 40)]
     for prof, n in plans:
         for _ in range(n):
